@@ -35,7 +35,7 @@ import (
 
 func TestCheck(t *testing.T) {
 	vkit.Run(t, "C18", "exploration", func(r *vkit.R) {
-		r.Rule("histories on the real rate-limiter server (scripted leader of 1-3 shards, local store, 1-2 upstreams each with a globalAllocate and a globalCount max-in-flight schema): " +
+		r.Rule("histories on the real rate-limiter server (scripted leader of all of 1-3 shards, or - every 4th history - of only some of 2-4 shards with the rest led by another server and condition names hashing to any shard; local store, 1-2 upstreams each with a globalAllocate and a globalCount max-in-flight schema): " +
 			"2-7 instances join (heartbeat), report (allocate), acquire (count, via DoAcquire), go silent (last heartbeat set 4 s back; timeout 3 s), come back with the same or a new identity; " +
 			"the two periodic cleanup passes are stepped by hand in any order and number (the asynchronous part of the timeout pass is awaited by polling). " +
 			"Oracle: dead = silent through a timeout pass and a later unknown-condition pass => no condition, no flow-control count, totals exact, a survivor can take the freed count, " +
@@ -78,6 +78,8 @@ func TestCheck(t *testing.T) {
 		}
 		returnDuringCleanup(r)
 		r.Require(r.Counter("return_overlaps_achieved") >= int64(r.N(50, 500)) && r.Counter("return_overlaps_confirmed_by_goroutine_dump") >= 10, "too few returns actually overlapped the clean-up goroutine")
+		r.Require(r.Counter("histories_leading_some_shards_only") >= 100 && r.Counter("reclaimed_conditions_whose_name_hashes_to_a_shard_not_led") >= 50,
+			"too few dead instances reclaimed on a server that leads only some shards, with condition names hashing to the other shards")
 		r.Require(r.Counter("histories") >= 100, "too few histories")
 		r.Require(r.Counter("reclaimed_with_conditions") >= 100 && r.Counter("reclaimed_with_counts") >= 100, "too few dead instances with recorded state were reclaimed")
 		r.Require(r.Counter("reclaimed_first_report_only") >= 20, "the empty-label (first report only) case was not exercised")
@@ -120,7 +122,9 @@ type history struct {
 	trace      []string
 	dead       bool
 	nontrivial bool
-	realtime   bool // silences are real (no heartbeat for > 3 s of wall time) instead of a back-dated heartbeat
+	led        map[int]bool // shards this server leads (all of them unless partial)
+	partial    bool         // the other shards are led by "other-server"
+	realtime   bool         // silences are real (no heartbeat for > 3 s of wall time) instead of a back-dated heartbeat
 }
 
 var watchdogFired int32
@@ -143,10 +147,36 @@ func (h *history) violate(sig, what string) {
 
 func newHistory(r *vkit.R, g *vkit.Rand, i int) *history {
 	h := &history{r: r, g: g, allocMax: map[string]int32{}, countMax: map[string]int32{}, cnts: map[string][]string{}, tbs: map[string]int{}}
-	h.srv = bed.NewLimiterServer(bed.LimiterOptions{LeadAll: true, Shards: 1 + i%3})
+	h.led = map[int]bool{}
+	if i%4 == 3 {
+		// several limiter servers: this one leads only some of the shards, "other-server" the rest. The upstreams used are of
+		// led shards; the NAMES of the instances' conditions (<upstream>.<instance>) hash to any shard, led or not.
+		h.partial = true
+		shards := g.Range(2, 4)
+		h.srv = bed.NewLimiterServer(bed.LimiterOptions{Shards: shards})
+		p := g.Perm(shards)
+		nLed := g.Range(1, shards-1)
+		for k, sh := range p {
+			if k < nLed {
+				h.led[sh] = true
+				h.srv.Elector.Gain(sh)
+			} else {
+				h.srv.Elector.SetLeader(sh, "other-server")
+			}
+		}
+		r.Count("histories_leading_some_shards_only", 1)
+	} else {
+		h.srv = bed.NewLimiterServer(bed.LimiterOptions{LeadAll: true, Shards: 1 + i%3})
+		for sh := 0; sh < h.srv.Shards; sh++ {
+			h.led[sh] = true
+		}
+	}
 	nu := 1 + g.Intn(2)
 	for u := 0; u < nu; u++ {
 		name := fmt.Sprintf("up%d-%d", i%11, u)
+		for k := 0; !h.led[util.GetShardID(name, h.srv.Shards)]; k++ { // an upstream of a shard this server leads
+			name = fmt.Sprintf("up%d-%d-%d", i%11, u, k)
+		}
 		h.ups = append(h.ups, name)
 		h.allocMax[name] = g.PickI32([]int32{20, 100, 1000, 10000})
 		c := &proxyv1alpha1.UpstreamCluster{ObjectMeta: metav1.ObjectMeta{Name: name}}
@@ -183,6 +213,9 @@ func newHistory(r *vkit.R, g *vkit.Rand, i int) *history {
 			r.Inconclusive("ApplyUpstream failed: " + err.Error())
 			return nil
 		}
+	}
+	if h.partial {
+		h.logf("this server leads shards %v of %d, the others are led by other-server", h.led, h.srv.Shards)
 	}
 	h.logf("server with %d shard(s); upstreams %v alloc limits %v; globalCount max-in-flight limits %v; globalCount token-bucket schemas per upstream %v", h.srv.Shards, h.ups, h.allocMax, h.countMax, h.tbs)
 	return h
@@ -287,6 +320,11 @@ func noCleanupGoroutine() bool {
 	}
 }
 
+// foreignName: the upstream is of a led shard but the condition NAME of (upstream, instance) hashes to a shard led elsewhere.
+func (h *history) foreignName(up, id string) bool {
+	return h.partial && !h.led[util.GetShardID(util.GenerateRateLimitConditionName(up, id), h.srv.Shards)]
+}
+
 // ---- operations
 
 func (h *history) join() *inst {
@@ -328,6 +366,9 @@ func (h *history) report(w *inst, up string) {
 	}
 	w.reports[up]++
 	h.r.Count("reports", 1)
+	if h.foreignName(up, w.id) {
+		h.r.Count("reports_whose_condition_name_hashes_to_a_shard_not_led", 1)
+	}
 	h.logf("report %s %s used=%d -> quota %d", w.id, up, used, w.quota[up])
 }
 
@@ -483,6 +524,10 @@ func (h *history) passUnknown() {
 	h.r.Count("unknown_passes", 1)
 	after := h.snap()
 	h.logf("unknown-condition pass")
+	if got := h.srv.Handle.Shards(); len(got) != len(h.led) {
+		h.violate("C18/shards/store-set-changed-by-cleanup", fmt.Sprintf("the server leads shards %v but has stores for shards %v after the cleanup passes", h.led, got))
+		return
+	}
 	h.checkLive("unknown-condition", before, after)
 	if h.dead {
 		return
@@ -534,8 +579,17 @@ func (h *history) passUnknown() {
 			if firstOnly {
 				cls = "first-report-only"
 			}
+			note := ""
+			for up := range m {
+				if h.foreignName(up, w.id) {
+					cls = "name-hashes-to-shard-led-elsewhere"
+					note = fmt.Sprintf("; this server leads shards %v of %d, upstream %s is of shard %d (led here) while the condition name %s hashes to shard %d (led by other-server)", h.led, h.srv.Shards,
+						up, util.GetShardID(up, h.srv.Shards), util.GenerateRateLimitConditionName(up, w.id), util.GetShardID(util.GenerateRateLimitConditionName(up, w.id), h.srv.Shards))
+					break
+				}
+			}
 			h.violate("C18/dead-instance/condition-kept/"+cls,
-				fmt.Sprintf("instance %s stayed silent through a timeout pass and a later unknown-condition pass, its allocate condition(s) are still on record: %v", w.id, m))
+				fmt.Sprintf("instance %s stayed silent through a timeout pass and a later unknown-condition pass, its allocate condition(s) are still on record: %v%s", w.id, m, note))
 			return
 		}
 		for up, c := range after.count[w.id] {
@@ -546,6 +600,11 @@ func (h *history) passUnknown() {
 			h.violate("C18/dead-instance/count-kept/"+withCond,
 				fmt.Sprintf("instance %s stayed silent through a timeout pass and a later unknown-condition pass, the max-in-flight flow control %s still lists it with count %d (the upstream also has %d globalCount token-bucket schemas)", w.id, up, c, h.tbs[keyUp(up)]))
 			return
+		}
+		for up := range w.quota {
+			if h.foreignName(up, w.id) {
+				h.r.Count("reclaimed_conditions_whose_name_hashes_to_a_shard_not_led", 1)
+			}
 		}
 		h.r.Count("reclaimed", 1)
 		h.logf("  %s is dead and fully reclaimed", w.id)
